@@ -9,6 +9,7 @@ from core import LeanDriver, err_kind, canon, CORPUS_DIR
 from gen import fields as genfields
 import lib_c03alias
 from lib_c03alias import AliasOracle, alias_group, alias_nontrivial
+from lib_c03fail import FailOracle, fail_group, fail_battery, fail_random, impl_seq, seq_requests
 
 ID = "C03"
 GENERATORS = [genfields.generate]
@@ -30,6 +31,10 @@ THEOREMS = [P + t for t in (
     "history_keeps_roundtrip", "list_classes_sane",
     "json_roundtrip", "jsonfield_text_roundtrip", "all_classes_text_roundtrip", "tags_text_roundtrip", "jsondata_obj_value",
     "maintenance_text_roundtrip", "iso_subsecond_offset_counterexample", "pathinfo_text_roundtrip", "gateway_text_roundtrip", "location_text_roundtrip",
+    # failed calls: the state after an exception (Model/CodecFail.lean)
+    "ttuple_parse_failed_unchanged", "ttuple_history_type_ok", "ttuple_history_roundtrip",
+    "setfields_failed_prefix", "setfields_single_failed_unchanged", "setfields_history_constructible", "setfields_failed_unchanged_counterexample",
+    "pathinfo_set_failed_unchanged", "pathinfo_history_domain", "maintenance_failed_unchanged", "maintenance_history_finalized",
 )]
 TRUSTED_BASE = [
     "gen/fields.py: AST patterns for JSONField._set_fields guards / field test (getattribute or membership in __dict__), to_json/to_dict "
@@ -53,6 +58,12 @@ TRUSTED_BASE = [
     "alias oracle family on every class (deep-copy snapshots of every argument, mutate-arg, mutate-result, second reads, derived instances); "
     "process-level hidden state: class orders in this process and in fresh interpreters; the translator refuses class-level mutable "
     "attributes / run-time writes to class attributes on JSONField classes",
+    "failed calls (Model/CodecFail.lean): an in-place method is modelled as state -> (state afterwards, exception): validating setters "
+    "(TypedTuple.parse_from_string, PathInfo/ERO.set, MaintenanceInfo.add/rem/pop) return the SAME state when they raise, "
+    "JSONField._set_fields the state with the keywords before the rejected one applied (as the code does); that the code leaves these "
+    "states behind is established by the tt.seq / jf.seq / pi.seq / mi.run correspondence lines (state compared after every step, "
+    "rejected ones too) and by the failed-call oracle family on every class (lib_c03fail: value, encoding, decode(encode), ==/hash "
+    "before and after every rejected call)",
     "keys that name a method/class attribute of a class whose _set_fields tests __getattribute__, and the parameter names "
     "self/forgiving/cls/lab, are outside the model (`unmodelled`); the oracle reports the former on the implementation",
 ]
@@ -66,7 +77,10 @@ ASSUMPTIONS = [
     "and the object must stay lossless after the change (history_keeps_roundtrip)",
     "MaintenanceEntry dates: every datetime except a UTC offset shorter than one second (known finding, lost by CPython's fromisoformat)",
 ]
-RULE = ("(class, value), (class, text with unknown keys / re-spaced / damaged) and (class, value, history of reads and in-place mutations of "
+RULE = ("(class, value, call that is rejected): every in-place setter / decoder / copy-with-changes / constructor of every class with invalid input "
+        "(unknown type, wrong kind of payload, locked record, absent name, bad keyword first / last / between good ones, damaged text) - the value "
+        "object is observed before and after; histories of accepted and rejected calls on one object against the Lean model; "
+        "(class, value), (class, text with unknown keys / re-spaced / damaged) and (class, value, history of reads and in-place mutations of "
         "arguments and results) over every JSONField class found in the source, Tags, 3 JSONData classes, Gateway, PathInfo, ERO, "
         "MaintenanceInfo/Entry and 4 typed tuples; every field, scalar / list / tuple forms, 0/0.0/False/''/[] and huge values, non-ASCII; "
         "JSON texts and ISO dates against CPython; non-trivial = at least one field set (or a non-empty payload/list) / a history with at "
@@ -330,6 +344,8 @@ def impl_eval(M, r):
             return ["ok", datetime.fromisoformat(r[1]).isoformat()]
         if op == "hist":
             return ["ok", hist_eval(M, r)]
+        if op in ("tt.seq", "jf.seq", "pi.seq"):
+            return ["ok", impl_seq(M, r)]
     except Exception as e:
         return ["err", kind(e)]
     raise ValueError("unknown op %s" % op)
@@ -1011,6 +1027,8 @@ def gen_requests(M, rng, n):
                 steps.append(rng.choice([["growX", f, rng.choice(pool)], ["growY", f, rng.choice(pool)], ["update"], ["showX"], ["showY"]]))
             steps += [["showX"], ["showY"]]
             reqs.append(["hist", "jf", C.__name__, [[k, to_wire(v)] for k, v in kw.items()], steps])
+    # --- histories with REJECTED calls (typed tuples, _set_fields in place, PathInfo.set): the state after every step
+    reqs += seq_requests(M, rng, n)
     return reqs
 
 
@@ -1085,6 +1103,8 @@ def nontrivial(r):
         return r[1]["payload"] is not None
     if op == "mi.run":
         return any(o[0] == "add" for o in r[1])
+    if op in ("tt.seq", "jf.seq", "pi.seq"):
+        return len(r[3]) >= 1
     if op == "mi.dec":
         return r[1] not in (None, [{"o": []}])
     return True
@@ -1180,7 +1200,7 @@ class Watch:
                            expected=srepr(snap), observed=srepr(obj))
 
 
-class Oracle(AliasOracle):
+class Oracle(AliasOracle, FailOracle):
     def __init__(self, M, res):
         self.M = M
         self.res = res
@@ -1903,7 +1923,7 @@ class Oracle(AliasOracle):
             self.maintenance([tuple(e) for e in c["entries"]], c.get("unknown_entry_key"))
         elif k == "ttuple":
             self.ttuple(c["class"], c["type"], c["val"])
-        elif not self.run_alias_case(c):
+        elif not self.run_alias_case(c) and not self.run_fail_case(c):
             raise ValueError("unknown case kind %s" % k)
 
 
@@ -2048,6 +2068,7 @@ def battery(M):
                 B["TypedTuple"].append({"kind": "ttuple", "class": cname, "type": t, "val": v})
     B["TypedTuple"] += [{"kind": "ttuple", "class": "Label", "type": "mac", "val": "trail "}, {"kind": "ttuple", "class": "Label", "type": "vlan", "val": "  "},
                         {"kind": "ttuple", "class": "Capacity", "type": "ram", "val": 1000}, {"kind": "ttuple", "class": "Capacity", "type": "cpu", "val": 0}]
+    fail_battery(M, B)          # every class: calls that are REJECTED must leave the value as it was (lib_c03fail)
     return B
 
 
@@ -2120,6 +2141,7 @@ def random_cases(M, rng, n):
         hops = [[rng.choice(["n1", "n2", "é", "a b", ""]) for _ in range(rng.choice([0, 1, 3]))] if rng.random() < 0.8 else None for _ in range(2)]
         out.append({"kind": "alias_pi", "ero": rng.random() < 0.5, "a2z": to_wire(hops[0]), "z2a": to_wire(hops[1]),
                     "symmetric": hops[0] is not None and rng.random() < 0.3})
+    out += fail_random(M, rng, n)
     return out
 
 
@@ -2280,6 +2302,8 @@ def group_of(case):
     k = case["kind"]
     if k.startswith("alias_"):
         return alias_group(case)
+    if k.startswith("fail_"):
+        return fail_group(case)
     if k in ("jsonfield", "update", "jf_history", "jsondata", "jd_history"):
         return case["class"]
     return {"tags": "Tags", "tags_history": "Tags", "gateway": "Gateway", "gw_history": "Gateway", "maintenance": "MaintenanceInfo",
